@@ -34,6 +34,8 @@ class Mark:
     path: tuple
     node: ast.stmt
     loops: tuple
+    env: Any = None      # environment after the statement
+    target: Any = None   # the ast target (subscript stores)
 
 
 _EXIT = (ast.Raise, ast.Continue, ast.Break, ast.Return)
@@ -101,6 +103,13 @@ class GuardWalk:
             if nm in self.watch:
                 self.marks.append(Mark(nm, env.vars.get(nm), self._path, s,
                                        loops))
+            if isinstance(t, ast.Subscript):
+                b = t.value
+                while isinstance(b, ast.Subscript):
+                    b = b.value
+                if isinstance(b, ast.Name) and f"{b.id}[]" in self.watch:
+                    self.marks.append(Mark(f"{b.id}[]", None, self._path, s,
+                                           loops, env.copy(), t))
 
     def _kind(self, s: ast.stmt) -> str:
         return type(s).__name__.lower()
@@ -185,6 +194,8 @@ class GuardWalk:
             self.opaque.append((s, str(u)))
             for nm in assigned_names([s]):
                 env.vars[nm] = self.fresh(nm)
+            if any(isinstance(t, ast.Subscript) for t in _targets(s)):
+                self._mark(env, s, loops)   # the store happens all the same
             return env
 
 
